@@ -772,6 +772,12 @@ func (c *HostClient) doNonNilReqResp(req *protocol.Request, resp *protocol.Respo
 		return retry, err
 	}
 	shouldCloseConn = resetConnection || req.ConnectionClose() || resp.ConnectionClose()
+	// A body that was skipped although the server sends one (the caller set SkipBody,
+	// or a CONNECT was refused with an ordinary response) is still on the wire: the
+	// connection cannot carry another exchange. (The response to a HEAD has none.)
+	if resp.SkipBody && !req.Header.IsHead() && !resp.Header.MustSkipContentLength() && resp.Header.ContentLength() != 0 {
+		shouldCloseConn = true
+	}
 
 	if resp.Header.StatusCode() == consts.StatusSwitchingProtocols &&
 		bytes.EqualFold(resp.Header.Peek(consts.HeaderConnection), bytestr.StrUpgrade) {
